@@ -32,6 +32,18 @@ theorem gather_nonatomic_lost_update :
     s.allFinished = true ∧ s.done = 1 ∧ s.target = 2 ∧ s.sets = 0 ∧ s.outerSet = false := by
   decide
 
+/-- **gather_nonatomic_lost_update_preempted** — the interleaving that `probe_gather_lost_update` (harness/corr/C08.py)
+    forces on the REAL `gather_futures` with an opcode tracer: worker 0 is preempted between its LOAD and its STORE,
+    worker 1 runs its whole callback in between (`LOAD₀ | LOAD₁ STORE₁ TEST₁ | STORE₀ TEST₀`). Same outcome. -/
+theorem gather_nonatomic_lost_update_preempted :
+    let s := run (St.init 0 2) [0, 1, 1, 1, 0, 0]
+    s.allFinished = true ∧ s.done = 1 ∧ s.target = 2 ∧ s.outerSet = false := by
+  decide
+
+/-- under the lock the same schedule makes worker 1 wait (its steps are no-ops until the lock is released); retried
+    afterwards, nothing is lost -/
+example : (lrun (St.init 0 2) [0, 1, 1, 1, 0, 0, 1, 1, 1]).outerSet = true := by decide
+
 /-- the same with a plain (non-future) entry in the source list and three workers: two updates lost -/
 theorem gather_nonatomic_lost_update_3 :
     let s := run (St.init 1 3) [0, 1, 2, 0, 1, 2, 0, 1, 2]
